@@ -163,3 +163,14 @@ func (e *MCause) Cause() error {
 	}
 	return e.Errs[0]
 }
+
+// NilOK is an error type whose nil pointer is a usable value: `var ErrX error = (*NilOK)(nil)`
+// is a sentinel some code bases declare this way.
+type NilOK struct{ Msg string }
+
+func (e *NilOK) Error() string {
+	if e == nil {
+		return "nil sentinel"
+	}
+	return e.Msg
+}
